@@ -318,3 +318,16 @@ PLANS["C05"] = {
         {"kind": "custom", "name": "durability", "fn": durability, "n": (2, 12)},
     ],
 }
+
+PLANS["C07"] = {
+    "level": "model_checking",
+    "assumptions": L1_ASSUME + ["schedules are sampled: goroutines are perturbed (Gosched / short sleeps) at every store call; real-time order "
+                                "comes from atomic tickets taken before each call and after each return",
+                                "the data-race clause is decided by the Go race detector under the same drivers, not by TLA+",
+                                "bulk operations in concurrent programs carry no skip/limit (their selection must be decidable from the history)"],
+    "stages": [
+        {"kind": "lin", "name": "lin", "n": (120, 3000), "maxg": 4, "ops": 3, "chunk": 10},
+        {"kind": "lin", "name": "lin-wide", "n": (30, 1000), "maxg": 8, "ops": 3, "chunk": 5, "seed_off": 31},
+        {"kind": "race", "name": "race", "n": (40, 600), "maxg": 6},
+    ],
+}
